@@ -274,6 +274,16 @@ class Weaver:
             header = header[:arrow] + '-> (' + ret + ': ' + ty + ')' + (' ' + header[tend:] if wh else ' ')
         if d.get('as'):
             header = re.sub(r'\bfn\s+' + re.escape(it.name) + r'\b', 'fn ' + d['as'], header, count=1)
+        # R6: a wildcard parameter `_: T` gets a name (Verus wants identifiers; the parameter is unused either way)
+        wn = [0]
+        def _name_wild(mm):
+            wn[0] += 1
+            return mm.group(1) + '_unused%d:' % wn[0]
+        header2 = re.sub(r'([(,]\s*)_\s*:', _name_wild, header)
+        if header2 != header:
+            header = header2
+            self.rules.append({'rule': 'R6 wildcard parameter named', 'fn': fname, 'loop': 0})
+            info.rules.append('R6')
         # R5: `fn f(mut self, ..) { BODY }`  ==>  `fn f(self, ..) { let mut __self = self; BODY[self := __self] }`
         # (Verus has no `mut self` parameters; the binding mode of a by-value parameter is local to the body)
         mut_self = bool(re.search(r'\(\s*mut\s+self\b', header))
